@@ -1340,7 +1340,7 @@ class Interp:
         return frozenset([obj])
 
     def mutate(self, fr, node, target: Value, kind: str):
-        objs = frozenset(a for a in target if a[0] in ("obj", "src", "class", "module", "func"))
+        objs = frozenset(a for a in target if a[0] in ("obj", "src", "class", "module", "func", "ext"))
         if not objs:
             return
         key = (id(node), fr.ctx, kind)
@@ -1365,6 +1365,10 @@ class Interp:
         args = self._flatten_pos(fr, pos, 8)
         a0 = args[0] if args else EMPTY
         generic = lambda: self.der((self.site(fr, node, "call:" + short), fr.ctx), frozenset([("ext", name)]), *args, *kw.values(), starkw)
+        parts = name.split(".")
+        if short in MUTATING_METHODS and len(parts) >= 3 and parts[0] != "builtins":
+            # a mutating method of an object that lives in an imported library module (dis.opmap.setdefault, warnings.filters.append, sys.path.insert)
+            self.mutate(fr, node, frozenset([("ext", ".".join(parts[:-1]))]), "call:" + short)
         if name in ("builtins.tuple", "builtins.list", "builtins.set", "builtins.frozenset", "builtins.sorted",
                     "builtins.reversed", "builtins.iter"):
             kind = {"sorted": "list", "reversed": "list", "iter": "gen"}.get(short, short)
